@@ -1179,7 +1179,9 @@ parsec_profiling_trace_flags_info_fn(parsec_profiling_stream_t* context, int key
         info_fn(this_event->info, info_data, parsec_prof_keys[ BASE_KEY(key) ].info_length);
         this_event->event.flags = PARSEC_PROFILING_EVENT_HAS_INFO;
     }
-    this_event->event.flags |= flags;
+    /* the HAS_INFO bit must agree with the space reserved above (EVENT_LENGTH looked at the
+     * pointers): the reader computes the length of the record from this bit */
+    this_event->event.flags |= (flags & ~PARSEC_PROFILING_EVENT_HAS_INFO);
     if(flags ^ PARSEC_PROFILING_EVENT_TIME_AT_START) {
         /* default behavior is to take time at end */
         now = take_time();
